@@ -253,3 +253,19 @@ Lemma duplicate_pair_dropped :
 Proof.
   exists [(0, 1, 2); (1, 2, 0)], 0, 1, [], []. vm_compute. repeat split; try reflexivity; lia.
 Qed.
+
+(* C01_shared_indices_correct *)
+Theorem shared_indices_correct (els : list elem) : elems_distinct_vertices els = true ->
+  (forall tbl e f i0 i1 j0 j1, edge_adjacency els = Some tbl -> In (e, f, i0, i1, j0, j1) tbl ->
+     e < length els /\ f < length els /\ e <> f /\ i0 < 3 /\ i1 < 3 /\ j0 < 3 /\ j1 < 3 /\ i0 <> i1 /\ j0 < j1 /\
+     vget (el els e) i0 = vget (el els f) j0 /\ vget (el els e) i1 = vget (el els f) j1 /\
+     forall i' j', i' < 3 -> j' < 3 -> vget (el els e) i' = vget (el els f) j' ->
+       (i' = i0 /\ j' = j0) \/ (i' = i1 /\ j' = j1)) /\
+  (forall tbl e f i j, vertex_adjacency els = Some tbl -> In (e, f, i, j) tbl ->
+     e < length els /\ f < length els /\ e <> f /\ i < 3 /\ j < 3 /\ vget (el els e) i = vget (el els f) j /\
+     forall i' j', i' < 3 -> j' < 3 -> vget (el els e) i' = vget (el els f) j' -> i' = i /\ j' = j).
+Proof.
+  intros W. split.
+  - intros tbl e f i0 i1 j0 j1 Ht Hin. exact (edge_rows_correct els tbl e f i0 i1 j0 j1 W Ht Hin).
+  - intros tbl e f i j Ht Hin. exact (vertex_rows_correct els tbl e f i j W Ht Hin).
+Qed.
